@@ -182,3 +182,25 @@ PROPS["C05"] = dict(
     ],
     max_known_fraction=dict(quick=0.25, thorough=0.06),
 )
+
+PROPS["C07"] = dict(
+    title="Membership events are a serialized, faithful log of Members()",
+    pkg="./props/c07",
+    level="exploration",
+    rule=("(a) one real node, scripted peers: 1-18 steps of claims (alive/suspect/dead/left and push/pull rows at incarnation held-1..held+2, same or other "
+          "address and metadata, any accuser, bursts of 2-4 claims in one packet), sleeps across the suspicion, reclaim and reaping deadlines (answering and "
+          "silent subjects), local UpdateNode and a final Leave; (b) 3-6 real nodes under loss up to 50%, delay, cut streams, crashes, restarts, leaves and "
+          "updates. At every quiescent point (after each step / every 500 virtual ms, synctest.Wait returned) the oracle replays the node's event log: callbacks "
+          "never overlapped, per member join (update)* leave, and the replayed set equals Members() by name with the metadata and address of the last "
+          "join/update event. The same oracle also runs at the end of every C03/C04/C05 cluster case. non-trivial = history with a leave followed by a re-join, "
+          "or an update event; distinct = distinct plans"),
+    tests=[
+        dict(name="log", run="^TestEventLog$",
+             quick=dict(shards=8, checks=400, timeout=600),
+             thorough=dict(shards=8, checks=12000, timeout=3000)),
+        dict(name="logc", run="^TestEventLogCluster$",
+             quick=dict(shards=8, checks=40, timeout=900),
+             thorough=dict(shards=8, checks=1200, timeout=3400)),
+    ],
+    assumptions=PUPPET_ASSUMPTIONS + ["the event delegate cannot call Members() itself (it runs under the node lock), so faithfulness is checked at quiescent points"],
+)
